@@ -121,6 +121,46 @@ func runC14(w *World, r *Report) {
 		undecidedf("C14: concat closure has only %d functions (floor 8)", len(closure))
 	}
 
+	// ---- no interface comparison that can panic on uncomparable dynamic types
+	r.Rule("C14.iface-compare", "the concat closure never compares two interface values of unknown dynamic type with == / != (that panics for slices, maps and structs holding them)", 0)
+	{
+		hits := ifaceCompares(closure)
+		for i, h := range hits {
+			r.Fail("C14.iface-compare", fmt.Sprintf("interface comparison #%d in %s", i+1, w.fname(h.fn)), h.op.Pos(), h.why+": for an uncomparable dynamic type (a []string extra, a struct with a slice field) the comparison panics — concatenation must return a value or an error")
+		}
+		if len(hits) == 0 {
+			r.OK("C14.iface-compare", fmt.Sprintf("no interface-to-interface comparison in the %d functions of the concat closure", len(closure)), closure[0].Pos(), "none present")
+		}
+	}
+
+	// ---- iteration-order independence: nothing but order-insensitive accumulators is carried across the iterations
+	// of a range over a map
+	r.Rule("C14.map-order-carried", "in the concat closure no value is carried from one iteration of a range-over-map loop into the next, except slices being appended to, counters and flags (Go's map order is random: a carried plain value makes the result nondeterministic)", 1)
+	{
+		nLoops := 0
+		for _, fn := range closure {
+			nLoops += len(mapRangeLoops(fn))
+			for _, c := range mapRangeCarried(fn) {
+				kind := carriedKind(c)
+				construct := fmt.Sprintf("%s: %s carries %s", w.fname(fn), c.loop.what, c.phi.Comment)
+				if kind == "other" {
+					r.Fail("C14.map-order-carried", construct, c.loop.pos, fmt.Sprintf("variable %s (%s) keeps its value from the previous iteration of a range over a map: what a group ends up with depends on which group the randomised iteration visited before it", c.phi.Comment, c.phi.Type()))
+				} else {
+					r.OK("C14.map-order-carried", construct, c.loop.pos, "order-insensitive accumulator ("+kind+"); the order of appended elements is decided by C14.map-order (stable sort)")
+				}
+			}
+		}
+		for _, fn := range closure {
+			for _, c := range mapRangeCarriedCells(fn) {
+				construct := fmt.Sprintf("%s: %s uses outer variable %s", w.fname(fn), c.loop.what, c.cell.Comment)
+				r.Check(c.resetOK, "C14.map-order-carried", construct, c.loop.pos, "re-initialised (Reset / constant store) before any other use in each iteration", fmt.Sprintf("variable %s lives outside the range over a map and is not re-initialised first thing in each iteration: a group inherits what the previously visited group left in it (random order)", c.cell.Comment))
+			}
+		}
+		if nLoops > 0 { // with no loop at all the rule's floor (1 instance) makes the verdict UNDECIDED unless another rule reports a violation
+			r.OK("C14.map-order-carried", fmt.Sprintf("%d range-over-map loops of the concat closure examined", nLoops), closure[0].Pos(), "header phis classified")
+		}
+	}
+
 	// ---- reflect-zero
 	r.Rule("C14.reflect-zero", "no possibly nil reflect.Type / zero reflect.Value is used unguarded in the concat closure", 2)
 	exc := map[string]string{}
